@@ -24,6 +24,11 @@ orc_rule_register (OrcRuleSet *rule_set,
   int i;
   OrcOpcodeSet *opcode_set;
 
+  if (rule_set == NULL) {
+    /* orc_rule_set_new() ran out of slots */
+    return;
+  }
+
   opcode_set = orc_opcode_set_get_nth (rule_set->opcode_major);
 
   i = orc_opcode_set_find_by_name (opcode_set, opcode_name);
@@ -41,6 +46,11 @@ orc_rule_set_new (OrcOpcodeSet *opcode_set, OrcTarget *target,
     unsigned int required_flags)
 {
   OrcRuleSet *rule_set;
+
+  if (target->n_rule_sets >= ORC_N_RULE_SETS) {
+    ORC_ERROR ("too many rule sets for target %s", target->name);
+    return NULL;
+  }
 
   rule_set = target->rule_sets + target->n_rule_sets;
   target->n_rule_sets++;
